@@ -9,7 +9,8 @@ embed: {k:'e', decl: <struct spec of the embedded type>, ptr, new, pkg (None|'su
 from .sexp import Q, dump
 
 FIELD_NAMES = ["id", "name", "userID", "user_name", "URL", "Age", "HTTPServer", "createdAt", "count",
-               "Label", "x", "y", "avatar_url", "kind", "Value", "isOK", "n2", "APIKey", "email", "Score", "zip_code"]
+               "Label", "x", "y", "avatar_url", "kind", "Value", "isOK", "n2", "APIKey", "email", "Score", "zip_code",
+               "settings", "setup_done", "getter", "newVal"]
 COLLIDING_NAMES = ["ID", "Id", "UserID", "Name", "Url"]
 KEYWORD_NAMES = ["Type", "Func", "Range", "Map", "Default", "type_", "Go"]
 EMBED_NAMES = ["Base", "Meta", "inner", "Audit", "Core", "Extra", "node", "Owner"]
